@@ -343,6 +343,14 @@ def main():
                "    `undoc` is never produced by the translator (image of a hand-written wildcard). -/")
     out.append("inductive Leaf where\n  | u32 | u64 | f32 | bool | str | hex | obj | arr\n"
                "  | lit (alts : List String) (orHex : Bool)\n  | undoc\n  deriving DecidableEq, Repr, Inhabited\n")
+    out.append("/-- what a schema checker may demand of a member beyond its leaf type (vocabulary for\n"
+               "    MdProofs/C15Schema.lean; the translator itself only fills the lists further down) -/")
+    out.append("inductive Refinement where\n  | plain\n"
+               "  | onlyTrue         -- a `<bool>` that is `true` when present\n"
+               "  | padded           -- a `<hexstring>` with at least the platform's digit count\n"
+               "  | sortedNonEmpty   -- a non-empty, strictly ascending array\n"
+               "  | kindCoupled      -- an object whose `kind` decides which other member is present\n"
+               "  deriving DecidableEq, Repr\n")
     out.append("/-- every member of the documented schema, in document order -/")
     out.append("def rows : List (String × Leaf) := " + llist([f"({lstr(pa)}, {lleaf(le)})" for pa, le in rows]) + "\n")
     out.append("/-- the members whose documented type is a list of string literals -/")
